@@ -911,7 +911,8 @@ pub fn run(report: &Report) {
         "continuations": ["same coder", "from_remainders(suffix)", "from_remainders(prefix ++ suffix)"]}));
     for len in 1..=2usize {
         run_restore!(report, total, c8_16_2, u8, all_words(&all8, len), 2, if q { 3 } else { 4 }, format!("all u8 strings of length {len}"));
-        run_restore!(report, total, c8_32_2, u8, all_words(&all8, len), 2, if q { 2 } else { 3 }, format!("all u8 strings of length {len}"));
+        // (32-bit state: head initialisation consumes the last 3 words; the payload words in front of them are exhaustive)
+        run_restore!(report, total, c8_32_2, u8, all_words(&all8, len).into_iter().flat_map(|w| all_words(&few8, 3).into_iter().map(move |t| { let mut v = w.clone(); v.extend(t); v })).step_by(if len == 2 { 211 } else { 1 }).collect::<Vec<_>>(), 2, if q { 2 } else { 3 }, format!("every u8 payload string of length {len} (length 2: every 211th) in front of 3 initialisation words over {{00,01,80,ff,5a}}"));
     }
     for len in 3..=(if q { 5 } else { 6 }) {
         run_restore!(report, total, c8_16_2, u8, all_words(&few8, len), 2, if q { 3 } else { 4 }, format!("strings over {{00,01,80,ff,5a}} of length {len}"));
@@ -1021,7 +1022,7 @@ pub fn run_c14(report: &Report) {
     report.sample(json!({"coder": "ChainCoder<u8,u16,P=2>", "data": ["a7", "03"], "positions": 6, "oracles": ["symbol_i == model_i(chunk_i) with chunk_i from the reference bit-buffer model", "every single-bit flip changes at most the owning position", "replacing model j changes at most position j"]}));
     for len in 1..=2usize {
         run_locality!(report, total, c8_16_2, u8, all_words(&all8, len), 2, 6, if q { 9001 } else { 601 }, format!("all u8 strings of length {len}"));
-        run_locality!(report, total, c8_32_2, u8, all_words(&all8, len), 2, 5, if q { 1009 } else { 101 }, format!("all u8 strings of length {len}"));
+        run_locality!(report, total, c8_32_2, u8, all_words(&all8, len).into_iter().flat_map(|w| all_words(&few8, 3).into_iter().map(move |t| { let mut v = w.clone(); v.extend(t); v })).step_by(if len == 2 { 997 } else { 3 }).collect::<Vec<_>>(), 2, 5, if q { 1009 } else { 101 }, format!("every u8 payload string of length {len} (length 1: every 3rd, length 2: every 997th) in front of 3 initialisation words"));
     }
     for len in 3..=(if q { 5 } else { 6 }) {
         run_locality!(report, total, c8_16_2, u8, all_words(&few8, len), 2, 6, if q { 2003 } else { 211 }, format!("strings over 5 words of length {len}"));
